@@ -43,6 +43,26 @@ ENS_TYPE(BUILTIN_TYPE)
 /* C02: type() is complex for a complex argument and decimal otherwise (blocc/builtin/builtin_<name>.cpp); value() agrees */
 PROP(C02) __CPROVER_ensures((OK && g_eval_n >= 1) ==> ((V_IS(A1, IMAGINARY) ? V_IS(RET, IMAGINARY) : V_IS(RET, NUMERIC)) && VALID_TAG(RET)))
 #endif
+#ifdef BUILTIN_TYPE_SAME_AS_ARG1
+/* C02: type() is the type of the first argument (abs -- decimal for a complex --, sign, clamp): with a typed scalar first argument the
+ * result has that type (a table never gets a defined static type here: the compiler refuses it, and an opaque argument makes the call opaque) */
+#ifdef BUILTIN_ABS
+#define TYPE_OF_ARG1 (V_MAJOR(A1) == IMAGINARY ? NUMERIC : V_MAJOR(A1))
+#else
+#define TYPE_OF_ARG1 V_MAJOR(A1)
+#endif
+PROP(C02) __CPROVER_ensures((OK && g_eval_n >= 1 && V_MAJOR(A1) != NO_TYPE && V_LEVEL(A1) == 0) ==> (V_MAJOR(RET) == TYPE_OF_ARG1 && V_LEVEL(RET) == 0 && V_MINOR(RET) == V_MINOR(A1) && VALID_TAG(RET)))
+#endif
+#ifdef BUILTIN_TYPE_ARITH2
+/* C02: type() is integer when both arguments are integers, decimal otherwise (max, min, mod): with two typed numbers the result agrees */
+#define NUM_TYPED(a) (V_LEVEL(a) == 0 && (V_MAJOR(a) == INTEGER || V_MAJOR(a) == NUMERIC))
+PROP(C02) __CPROVER_ensures((OK && g_eval_n == 2 && NUM_TYPED(A1) && NUM_TYPED(A2)) ==> (V_IS(RET, ((V_MAJOR(A1) == INTEGER && V_MAJOR(A2) == INTEGER) ? INTEGER : NUMERIC)) && VALID_TAG(RET)))
+#endif
+#ifdef BUILTIN_TYPE_POW
+/* C02: pow is complex when an argument is complex, integer when both are integers, decimal otherwise */
+#define POW_TYPED(a) (V_LEVEL(a) == 0 && (V_MAJOR(a) == INTEGER || V_MAJOR(a) == NUMERIC || V_MAJOR(a) == IMAGINARY))
+PROP(C02) __CPROVER_ensures((OK && g_eval_n == 2 && POW_TYPED(A1) && POW_TYPED(A2)) ==> (V_IS(RET, ((V_MAJOR(A1) == IMAGINARY || V_MAJOR(A2) == IMAGINARY) ? IMAGINARY : (V_MAJOR(A1) == INTEGER && V_MAJOR(A2) == INTEGER) ? INTEGER : NUMERIC)) && VALID_TAG(RET)))
+#endif
 #ifdef BUILTIN_IS_INT
 /* C03 / C10: int(x).  A decimal (or the real part of a complex) converts exactly when it lies in [-2^63, 2^63) -- truncated
  * toward zero -- and is OUT_OF_RANGE otherwise (2^63 itself and NaN included); an integer is handed through; a boolean is 0 / 1;
@@ -51,6 +71,13 @@ PROP(C03, C10) __CPROVER_ensures((g_eval_n == 1 && V_IS(A1, NUMERIC) && !V_ISNUL
 PROP(C03, C10) __CPROVER_ensures((g_eval_n == 1 && V_IS(A1, NUMERIC) && !V_ISNULL(A1) && !(V_D(A1) >= -9223372036854775808.0 && V_D(A1) < 9223372036854775808.0)) ==> THROWN_RT(EXC_RT_OUT_OF_RANGE))
 PROP(C03) __CPROVER_ensures((g_eval_n == 1 && V_IS(A1, INTEGER) && !V_ISNULL(A1)) ==> (OK && !V_ISNULL(RET) && V_I(RET) == V_I(A1)))
 PROP(C03, C04) __CPROVER_ensures((g_eval_n == 1 && V_ISNULL(A1) && V_LEVEL(A1) == 0 && (V_MAJOR(A1) == NO_TYPE || V_MAJOR(A1) == INTEGER || V_MAJOR(A1) == NUMERIC || V_MAJOR(A1) == BOOLEAN || V_MAJOR(A1) == LITERAL)) ==> (OK && V_ISNULL(RET)))
+#endif
+#ifdef BUILTIN_IS_NUM
+/* C03 / C10: num(x).  An integer converts to the nearest decimal (the machine conversion), a decimal is handed through, the real
+ * part of a complex is taken, a boolean is 0.0 / 1.0; a null gives a null decimal */
+PROP(C03, C10) __CPROVER_ensures((g_eval_n == 1 && V_IS(A1, INTEGER) && !V_ISNULL(A1)) ==> (OK && !V_ISNULL(RET) && V_D(RET) == (double)V_I(A1)))
+PROP(C03, C10) __CPROVER_ensures((g_eval_n == 1 && V_IS(A1, NUMERIC) && !V_ISNULL(A1)) ==> (OK && !V_ISNULL(RET) && RET->_value.i == A1->_value.i))
+PROP(C03, C04) __CPROVER_ensures((g_eval_n == 1 && V_ISNULL(A1)) ==> (OK && V_ISNULL(RET)))
 #endif
 ;
 
